@@ -7,6 +7,7 @@ CONSTANTS
   MCMaxOps = 2
 INVARIANT RoundTrip
 INVARIANT ExportIsCurrent
+INVARIANT BinaryFieldsOpaque
 INVARIANT ConversionIdentity
 INVARIANT RoutesKeepPoint
 INVARIANT OpsEffect
